@@ -152,7 +152,9 @@ func GetPKI() *PKI {
 	p.Foreign = newIdent("foreign", p.RuleName, false, p.ForeignCA, nb, na, 9)
 	p.ViaInter = newIdent("viainter", "intruder.verif", false, p.Intermediate, nb, na, 10)
 	p.ViaInter.Chain = [][]byte{p.ViaInter.DER, p.Intermediate.DER}
-	for i, cn := range []string{strings.ToUpper(p.RuleName), strings.ToUpper(p.RuleName[:1]) + p.RuleName[1:], p.RuleName + ".", " " + p.RuleName, p.RuleName + "\x00", "x" + p.RuleName, p.RuleName[:len(p.RuleName)-1], strings.Replace(p.RuleName, "i", "\u0131", 1)} {
+	for i, cn := range []string{strings.ToUpper(p.RuleName), strings.ToUpper(p.RuleName[:1]) + p.RuleName[1:], p.RuleName + ".", " " + p.RuleName, p.RuleName + "\x00", "x" + p.RuleName, p.RuleName[:len(p.RuleName)-1], strings.Replace(p.RuleName, "i", "\u0131", 1),
+		// names that are patterns covering the rule's name (glob, regular expression) rather than the name
+		"*", "*.verif", "client.veri?", "client.[a-z]erif", "c*f", ".*", "client.verif|x", "client\\.verif"} {
 		p.NearNames = append(p.NearNames, newIdent(fmt.Sprintf("near%d", i), cn, false, p.CA, nb, na, int64(20+i)))
 	}
 	p.SANName = newIdentSAN("sanname", "intruder.verif", []string{p.RuleName, "*.verif", "localhost"}, false, p.CA, nb, na, 11)
